@@ -860,7 +860,14 @@ fn assignable_call<'t>(ctx: Context<'t>, callee: Assignable) -> ParseResult<'t, 
 
                 ctx = match ctx.tokens_lookahead::<2>() {
                     [T::Newline, T::Comma] => ctx.skip(2),
-                    [T::Comma, T::Newline] => ctx.skip(2),
+                    [T::Comma, T::Newline] => {
+                        // The arguments continue on the next line that isn't blank.
+                        let mut ctx = ctx.skip(2);
+                        while matches!(ctx.token(), T::Newline) {
+                            ctx = ctx.skip(1);
+                        }
+                        ctx
+                    }
                     [T::Comma, ..] => ctx.skip(1),
                     _ => ctx,
                 };
